@@ -30,7 +30,7 @@ RULE = ('(A) cross product system{absent,1.0,2.0} x constraint{none,>=1.5,<1.5,>
         'x pre-step{none, subproject(), parent override 1.0/2.0} x required{true,false,auto,disabled(+enabled/default samples)} x '
         '(allow_fallback,fallback){unset/true/false x none, explicit with/without variable}, pruned of undefined combinations; one '
         '`meson setup --backend=none` per cell (quick: seeded sample; thorough: all). Sequences: all patterns XX, XXX, XY, XYX, XSX, XSY, '
-        'SXY, OXY over 6 lookup variants x a configuration grid (quick: core grid; thorough: extended grid). Multi-name lookups dependency(a, b[, c]) x which names the system has x which were overridden beforehand x middle step {nothing, subproject overriding one or both names, late override_dependency}: a successful configuration in which the first lookup found something must give the repeated lookup the same (found, name, version). non-trivial (A) = at least two '
+        'SXY, OXY over 6 lookup variants x a configuration grid (quick: core grid; thorough: extended grid). Multi-name lookups dependency(a, b[, c]) x which names the system has x which were overridden beforehand x middle step {nothing, subproject overriding one or both names, late override_dependency}: a successful configuration in which the first lookup found something must give the repeated lookup the same (found, name, version). Search-path histories: configured with pkg_config_path=A, reconfigured with pkg_config_path=B (each holding another version or nothing, with and without fallback / version constraint / static) must resolve like a fresh configuration with B. non-trivial (A) = at least two '
         'of {system present, provider present, force flag, nofallback}. (B) wrap-file cases: source/patch acquisition spec (primary URL, '
         'fallback URL, packagecache, packagefiles with/without hash) x corruption class per location {good, flipped-but-extractable, '
         'truncated, other valid archive, garbage, missing} x recorded hash {right, upper-case, hash of other archive, hash of truncated '
@@ -591,11 +591,77 @@ def check_multi(case: dict, sub: bool = False) -> T.Optional[Failure]:
         shutil.rmtree(d, ignore_errors=True)
 
 
+# (A-pcpath) the search path is an input of the lookup: a directory configured with pkg_config_path=A and then reconfigured
+# with pkg_config_path=B must resolve the dependency as a fresh configuration with pkg_config_path=B does (model-free differential)
+
+def pcpath_cases() -> T.List[dict]:
+    out = []
+    for a_ver, b_ver in (('1.0', '2.0'), ('1.0', None), (None, '2.0'), ('2.0', '1.0')):
+        for fb in (False, True):
+            for cons in (None, '>=1.5'):
+                for static in (False, True):
+                    out.append({'pcpath': True, 'a': a_ver, 'b': b_ver, 'fallback': fb, 'cons': cons, 'static': static})
+    return out
+
+
+def check_pcpath(case: dict, sub: bool = False) -> T.Optional[Failure]:
+    from harness import mesondrv as md
+    p = _prep()
+    d = _newdir()
+    try:
+        kw = ["required: false"] + ([f"version: '{case['cons']}'"] if case['cons'] else []) + (["fallback: ['sp', 'foo_dep']"] if case['fallback'] else []) \
+            + (['static: true'] if case['static'] else [])
+        files = {'src/meson.build': "project('main', version: '0.1')\nd0 = dependency('c10pp', " + ', '.join(kw) + ")\n"
+                 "message('R0:found=@0@;type=@1@;ver=@2@'.format(d0.found(), d0.type_name(), d0.found() ? d0.version() : '-'))\n",
+                 'pcA/.keep': '', 'pcB/.keep': ''}
+        if case['fallback']:
+            files['src/subprojects/sp/meson.build'] = "project('sp', version: '9.0')\nfoo_dep = declare_dependency(version: '9.0')\n"
+        for k, ver in (('A', case['a']), ('B', case['b'])):
+            if ver is not None:
+                files[f'pc{k}/c10pp.pc'] = f'Name: c10pp\nDescription: generated\nVersion: {ver}\n'
+        md.write_tree(d, files)
+        env = {'PKG_CONFIG': p['wrapper'], 'PKG_CONFIG_LIBDIR': os.path.join(d, 'none'), 'C10_PCLOG': os.path.join(d, 'pc.log'), 'CMAKE': '/nonexistent/cmake'}
+
+        def one(a: T.List[str]) -> T.Any:
+            if sub:
+                return md.run_sub(a, cwd=d, env=env)
+            _reset_dep_caches()
+            return md.run_inproc(a, cwd=d, env=env)
+
+        def res(r: T.Any) -> str:
+            return next((m for m in r.messages() if m.startswith('R0:')), 'no-message rc=%d' % r.rc)
+        r1 = one(['setup', '--backend=none', f'-Dpkg_config_path={d}/pcA', os.path.join(d, 'src'), os.path.join(d, 'aged')])
+        if r1.rc != 0:
+            raise HarnessError(f'pcpath case does not configure: {case}\n{r1.text[-500:]}')
+        r2 = one(['setup', '--reconfigure', f'-Dpkg_config_path={d}/pcB', os.path.join(d, 'src'), os.path.join(d, 'aged')])
+        r3 = one(['setup', '--backend=none', f'-Dpkg_config_path={d}/pcB', os.path.join(d, 'src'), os.path.join(d, 'fresh')])
+        if r2.unhandled or r3.unhandled:
+            return Failure('policy-pcpath/crash', case, f'meson setup crashed on {case}:\n{(r2 if r2.unhandled else r3).text[-1000:]}')
+        if (r2.rc, res(r2)) != (r3.rc, res(r3)):
+            return Failure('policy-pcpath/reconfigured-differs-from-fresh', case,
+                           f"dependency('c10pp', {', '.join(kw)}): configured with pkg_config_path=pcA ({case['a']}), reconfigured with pkg_config_path=pcB "
+                           f"({case['b']}) gives {res(r2)} (exit {r2.rc}); a fresh configuration with pkg_config_path=pcB gives {res(r3)} (exit {r3.rc})")
+        return None
+    finally:
+        shutil.rmtree(d, ignore_errors=True)
+
+
 def _shard_multi(shard: T.List[dict], ev: Evidence, fails: T.List[Failure]) -> None:
     _prep()
     sigs: T.Set[str] = set()
     try:
         for case in shard:
+            if case.get('pcpath'):
+                f = check_pcpath(case)
+                ev.case(case, nontrivial=case['a'] != case['b'], cls='A-pcpath')
+                if f is not None:
+                    f2 = check_pcpath(case, sub=True)
+                    if f2 is None:
+                        ev.inproc_only += 1
+                    elif f2.sig not in sigs:
+                        sigs.add(f2.sig)
+                        fails.append(f2)
+                continue
             f = check_multi(case)
             ev.case(case, nontrivial=case['mid'][0] != 'none' and (case['sys'] or case['pre']) != 0, cls='A-multi/' + case['mid'][0])
             if f is not None:
@@ -1357,7 +1423,7 @@ def run(ctx: Ctx) -> None:
     if ctx.quick:
         multi = multi[ctx.seed % 2::2]
     ctx.ev.extra['A_multi_name_cases_run'] = len(multi)
-    pmap(ctx, _shard_multi, _chunks(multi, 16))
+    pmap(ctx, _shard_multi, _chunks(multi + pcpath_cases(), 16))
     sysb = systematic_b()
     nb = ctx.n(500, 9000)
     randb = [random_b(rnd) for _ in range(nb)]
@@ -1381,6 +1447,8 @@ def replay(ctx: Ctx, case: T.Any, doc: dict) -> T.Optional[Failure]:
     try:
         if case.get('probe') == 'exit0':
             return probe_exit0(case)
+        if case.get('pcpath'):
+            return check_pcpath(case, sub=True)
         if case.get('multi'):
             return check_multi(case, sub=True)
         if 'cfg' in case:
